@@ -15,7 +15,7 @@ rnd, src, notes = int(sys.argv[1]), sys.argv[2], json.load(open(sys.argv[3]))
 missed, attributed, skip = notes.get("missed", {}), notes.get("attributed", {}), set(notes.get("skip", []))
 V = os.path.dirname(os.path.dirname(os.path.abspath(__file__)))
 n = 0
-for d in sorted(glob.glob(src + "/C[0-9][0-9][a-z]")):
+for d in sorted(glob.glob(src + "/C[0-9][0-9][a-zA-Z]")):
     i = os.path.basename(d)
     if i in skip:
         continue
